@@ -33,16 +33,22 @@ func init() {
 			{ID: "R20.5", Template: "T-MUSTPASS", Text: "stack iterator reset always re-walks the stack", Min: 1},
 			{ID: "R20.7", Template: "T-OWN", Text: "StackIterator.Function returns a value that does not alias the iterator (genuine compiler defect found and fixed)", Min: 2},
 			{ID: "R20.8", Template: "T-SIBLING", Text: "parallel frame caches of the multi-listener adapter are reset together", Min: 2},
+			{ID: "R20.9", Template: "T-SIBLING", Text: "the listener of a host function is given exactly the params (Before) and the results (After) on both engines (genuine compiler defect found and fixed)", Min: 6},
+			{ID: "R20.10", Template: "T-MUSTPASS", Text: "a call that ends in stack overflow completes every Before with an Abort (genuine defects found and fixed on both engines)", Min: 3},
 			{ID: "R20.6", Template: "T-SIBLING", Text: "listener objects captured by a cached compiled module are covered by the module identity (known finding: only nil-ness is hashed)", Min: 2},
 		},
 		Run: runC20,
 		Controls: []core.Control{
+			{Name: "compiler-stack-overflow-without-abort", File: "internal/engine/wazevo/call_engine.go", Old: "\t\t\t\t\tif def, lsn := c.addFrame(builder, retAddr); lsn != nil {\n\t\t\t\t\t\tlsn.Abort(ctx, m, def, err)\n\t\t\t\t\t}", New: "\t\t\t\t\t_, _ = c.addFrame(builder, retAddr)", Rule: "R20.10", Substr: "compiler"},
+			{Name: "host-listener-after-sees-whole-slot-area", File: "internal/engine/wazevo/call_engine.go", Old: "listener.After(ctx, callerModule, def, s[:len(def.ResultTypes())])", New: "listener.After(ctx, callerModule, def, s)", Rule: "R20.9", Substr: "After"},
+			{Name: "interpreter-before-ahead-of-ceiling", File: "internal/engine/interpreter/interpreter.go", Old: "\t// Abort is delivered to the functions which have a frame, so Before must not be called for one that cannot get it.\n\tif callStackCeiling <= len(ce.frames) {\n\t\tpanic(wasmruntime.ErrRuntimeStackOverflow)\n\t}\n\tce.stackIterator.reset(ce.stack, ce.frames, f)", New: "\tce.stackIterator.reset(ce.stack, ce.frames, f)", Rule: "R20.10", Substr: "callNativeFuncWithListener"},
+			{Name: "unwindstack-capped-again", File: "internal/engine/wazevo/backend/isa/amd64/stack.go", Old: "return UnwindStackUpTo(sp, rbp, top, returnAddresses, 0)", New: "return UnwindStackUpTo(sp, rbp, top, returnAddresses, 30)", Rule: "R20.3", Substr: "frame limit"},
 			{Name: "function-returns-the-iterator", File: "internal/engine/wazevo/call_engine.go", Old: "\treturn internalFunction{def: si.currentDef, eng: si.eng}\n", New: "\treturn si\n", Old2: "// internalFunction implements experimental.InternalFunction.", New2: "func (si *stackIterator) Definition() api.FunctionDefinition { return si.currentDef }\n\nfunc (si *stackIterator) SourceOffsetForPC(pc experimental.ProgramCounter) uint64 { return 0 }\n\n// internalFunction implements experimental.InternalFunction.", Rule: "R20.7", Substr: "wazevo"},
 			{Name: "adapter-resets-only-pcs", File: "experimental/listener.go", Old: "\t\tsi.pcs = si.pcs[:0]\n\t\tsi.fns = si.fns[:0]\n", New: "\t\tsi.pcs = si.pcs[:0]\n", Rule: "R20.8", Substr: "fns"},
 			{Name: "br-table-plain-jump", File: "internal/engine/wazevo/frontend/lower.go", Old: "\t\tbuilder.SetCurrentBlock(trampoline)\n\t\tc.insertJumpToBlock(args, targetBlk)\n", New: "\t\tbuilder.SetCurrentBlock(trampoline)\n\t\tbuilder.AllocateInstruction().AsJump(args, targetBlk).Insert(builder)\n", Rule: "R20.1", Substr: "lowerBrTable"},
 			{Name: "return-without-after", File: "internal/engine/wazevo/frontend/lower.go", Old: "\t\tif c.needListener {\n\t\t\tc.callListenerAfter()\n\t\t}\n\n\t\tc.lowerReturn(builder)\n", New: "\t\tc.lowerReturn(builder)\n", Rule: "R20.1", Substr: "Return"},
 			{Name: "no-before-at-entry", File: "internal/engine/wazevo/frontend/lower.go", Old: "\tif c.needListener {\n\t\tc.callListenerBefore()\n\t}\n", New: "", Rule: "R20.1", Substr: "before"},
-			{Name: "host-after-before-call", File: "internal/engine/wazevo/call_engine.go", Old: "\t\t\tlistener.Before(ctx, callerModule, def, s, c.stackIterator(true))\n\t\t\t// Call into the Go function.\n\t\t\tfunc() {\n\t\t\t\tif snapshotEnabled {\n\t\t\t\t\tdefer snapshotRecoverFn(c)\n\t\t\t\t}\n\t\t\t\tf.Call(ctx, s)\n\t\t\t}()\n\t\t\t// Call Listener.After.\n\t\t\tlistener.After(ctx, callerModule, def, s)\n", New: "\t\t\tlistener.Before(ctx, callerModule, def, s, c.stackIterator(true))\n\t\t\tlistener.After(ctx, callerModule, def, s)\n\t\t\t// Call into the Go function.\n\t\t\tfunc() {\n\t\t\t\tif snapshotEnabled {\n\t\t\t\t\tdefer snapshotRecoverFn(c)\n\t\t\t\t}\n\t\t\t\tf.Call(ctx, s)\n\t\t\t}()\n", Rule: "R20.2", Substr: "ExitCodeCallGoFunctionWithListener"},
+			{Name: "host-after-before-call", File: "internal/engine/wazevo/call_engine.go", Old: "\t\t\t// Call into the Go function.\n\t\t\tfunc() {\n\t\t\t\tif snapshotEnabled {\n\t\t\t\t\tdefer snapshotRecoverFn(c)\n\t\t\t\t}\n\t\t\t\tf.Call(ctx, s)\n\t\t\t}()\n\t\t\t// Call Listener.After.\n\t\t\tlistener.After(ctx, callerModule, def, s[:len(def.ResultTypes())])\n", New: "\t\t\tlistener.After(ctx, callerModule, def, s[:len(def.ResultTypes())])\n\t\t\t// Call into the Go function.\n\t\t\tfunc() {\n\t\t\t\tif snapshotEnabled {\n\t\t\t\t\tdefer snapshotRecoverFn(c)\n\t\t\t\t}\n\t\t\t\tf.Call(ctx, s)\n\t\t\t}()\n", Rule: "R20.2", Substr: "ExitCodeCallGoFunctionWithListener"},
 			{Name: "interp-after-conditional", File: "internal/engine/interpreter/interpreter.go", Old: "\tce.callNativeFunc(ctx, m, f)\n\tfnl.After(ctx, m, def, ce.peekValues(typ.ResultNumInUint64))\n", New: "\tce.callNativeFunc(ctx, m, f)\n\tif typ.ResultNumInUint64 > 0 {\n\t\tfnl.After(ctx, m, def, ce.peekValues(typ.ResultNumInUint64))\n\t}\n", Rule: "R20.2", Substr: "callNativeFuncWithListener"},
 			{Name: "interp-bypass-dispatcher", File: "internal/engine/interpreter/interpreter.go", Old: "\t} else if lsn := f.parent.listener; lsn != nil {\n\t\tce.callNativeFuncWithListener(ctx, m, f, lsn)\n\t} else {", New: "\t} else if lsn := f.parent.listener; lsn != nil && len(ce.frames) == 0 {\n\t\tce.callNativeFuncWithListener(ctx, m, f, lsn)\n\t} else {", Rule: "R20.2", Substr: "dispatcher"},
 			{Name: "abort-capped-at-max-frames", File: "internal/engine/interpreter/interpreter.go", Old: "\tfunctionListeners := make([]functionListenerInvocation, 0, 16)\n\n", New: "\tfunctionListeners := make([]functionListenerInvocation, 0, 16)\n\n\tif frameCount > wasmdebug.MaxFrames {\n\t\tframeCount = wasmdebug.MaxFrames\n\t}\n", Rule: "R20.3", Substr: "interpreter"},
@@ -62,6 +68,8 @@ func runC20(c *core.Ctx) {
 	checkIteratorReset(c)
 	checkListenerIdentity(c)
 	checkIteratorValues(c)
+	checkHostListenerSlices(c)
+	checkStackOverflowAbort(c)
 }
 
 // ---------------------------------------------------------------------------------------------------------
